@@ -63,6 +63,20 @@ func TLSConfigs() (*tls.Config, *tls.Config) {
 	return tlsServerCfg.Clone(), tlsClientCfg.Clone()
 }
 
+// ServerTLSVia returns the server TLS configuration supplied in one of the ways crypto/tls accepts: "" a static certificate
+// list, "getcertificate" a GetCertificate callback, "getconfig" a GetConfigForClient callback (per-client configuration) only.
+func ServerTLSVia(via string) *tls.Config {
+	static, _ := TLSConfigs()
+	switch via {
+	case "getcertificate":
+		cert := static.Certificates[0]
+		return &tls.Config{GetCertificate: func(*tls.ClientHelloInfo) (*tls.Certificate, error) { return &cert, nil }}
+	case "getconfig":
+		return &tls.Config{GetConfigForClient: func(*tls.ClientHelloInfo) (*tls.Config, error) { return static, nil }}
+	}
+	return static
+}
+
 // GotEnv is one envelope received by a scripted peer.
 type GotEnv struct {
 	Env  M    `json:"env"`
